@@ -106,6 +106,23 @@ def main():
             suffix = "" if f.get("replayed") else " no-failing-input-found"
             violations.append((rp, suffix, f["name"]))
         for u in proof["undecided"]:
+            cand = u.pop("candidate", None)
+            if cand is not None:
+                rp = os.path.join(VERIF, "replays", pid, "candidate-" + safe(u["name"]) + ".json")
+                os.makedirs(os.path.dirname(rp), exist_ok=True)
+                cand["replay_cmd"] = f"python3-vt check.py {pid} --replay {rp}"
+                json.dump(cand, open(rp, "w"), indent=1, default=str)
+                try:
+                    res = run_native(pid, tier, seed, replay=rp)
+                except Exception as e:
+                    res = {"violations": [], "notes": [str(e)[-300:]]}
+                if res["violations"]:
+                    cand["native_replay"] = {"violations": res["violations"], "notes": res.get("notes", [])}
+                    cand["replayed"] = True
+                    json.dump(cand, open(rp, "w"), indent=1, default=str)
+                    violations.append((rp, "", u["name"]))
+                    continue        # decided: a concrete legal input violates the contract on the real code
+                os.unlink(rp)
             undecided.append(u)
         for kf in proof["known_hit"]:
             printed_known.append(kf)
